@@ -5,6 +5,7 @@ import (
 	"go/constant"
 	"go/token"
 	"go/types"
+	"strings"
 
 	"engcheck/core"
 )
@@ -20,6 +21,7 @@ func init() {
 		c08SwitchOnlyOnUpgrade(c)          // C02.5b = C08.2: a candidate becomes the current transport (whose packets are delivered) only upon its UPGRADE packet
 		c03ConstructionWiring(c, "C02.6b") // the transport's packet event reaches onPacket
 		c02Jsonp(c)
+		codecCallTable(c, "C02.4c")
 		c10BoundedBody(c, "C02.9")                                                     // the whole body below the limit reaches OnData: the read limit is MaxHttpBufferSize() itself, not a smaller or unrelated quantity
 		c03AdmittedStates(c, "C02.1b", map[string]bool{"onPacket/emit(packet)": true}) // delivered whenever (and only when) open
 		// WebTransport frames: the kind and the bytes of an inbound message come from the framing layer
@@ -467,4 +469,47 @@ func c02Jsonp(c *core.Ctx) {
 		})
 		c.Check(R, "transports.(*jsonp).OnData/unescape-order(rSlashes≺rDoubleSlashes)", od[0].Pos(), order, "single escaped newlines are decoded on the raw d field first, doubled ones on that result (the reverse order turns a literal backslash-n into a line feed)")
 	}
+}
+
+// codecCallTable — C02.4c / C01.15: the optional flags of the external
+// parser's four entry points select byte-level transformations (UTF-8
+// re-encoding, base64); each call site passes exactly what its transport needs.
+func codecCallTable(c *core.Ctx, R string) {
+	c.Rule(R, "codec call table (engine.io-go-parser): DecodePacket(frame) and DecodePayload(body) are called with the buffer alone (no utf8decode flag, or constant false: a frame transport and the payload decoder already hand over decoded text); EncodePacket(packet, SupportsBinary()) with no utf8encode flag; EncodePayload(packets, SupportsBinary()) on the revision-3 edge and EncodePayload(packets) otherwise — an extra flag silently rewrites every non-ASCII byte of a message")
+	n := 0
+	isSB := func(u *core.Unit, e ast.Expr) bool {
+		ce, key := u.AsCall(e)
+		return ce != nil && strings.HasSuffix(key, ".SupportsBinary")
+	}
+	constFalse := func(u *core.Unit, e ast.Expr) bool {
+		v, ok := core.ConstBool(u.Info(), e)
+		return ok && !v
+	}
+	for _, u := range c.P.Units {
+		for _, cl := range u.Calls() {
+			if cl.Callee == nil || cl.Callee.Pkg() == nil || !strings.HasSuffix(cl.Callee.Pkg().Path(), "engine.io-go-parser/parser") {
+				continue
+			}
+			args := cl.Expr.Args
+			ok, known := true, true
+			switch cl.Name {
+			case "DecodePacket":
+				ok = len(args) == 1 || (len(args) == 2 && constFalse(u, args[1]))
+			case "DecodePayload":
+				ok = len(args) == 1
+			case "EncodePacket":
+				ok = len(args) >= 2 && isSB(u, args[1]) && (len(args) == 2 || (len(args) == 3 && constFalse(u, args[2])))
+			case "EncodePayload":
+				ok = len(args) == 1 || (len(args) == 2 && isSB(u, args[1]))
+			default:
+				known = false
+			}
+			if !known {
+				continue
+			}
+			n++
+			c.Check(R, keyf("%s/%s(%d args)", u.Key, cl.Name, len(args)), cl.Pos(), ok, "the parser is called with the frozen argument shape of this entry point")
+		}
+	}
+	c.Need(R, "parser encode/decode call sites", n, 7)
 }
